@@ -77,6 +77,14 @@ class DecodeState:
             odxraise("The bit length of FLOAT64 values must be 64 bits")
             bit_length = 64
 
+        if base_data_type in (DataType.A_INT32, DataType.A_UINT32):
+            if bit_length > 64:
+                raise DecodeError(f"Integer objects cannot be larger than 64 bits (is: {bit_length})")
+        elif base_data_type not in (DataType.A_FLOAT32, DataType.A_FLOAT64):
+            if bit_length % 8 != 0:
+                raise DecodeError(f"The bit length of {base_data_type.value} objects must be "
+                                  f"a multiple of 8 (is: {bit_length})")
+
         byte_length = (bit_length + self.cursor_bit_position + 7) // 8
         if self.cursor_byte_position + byte_length > len(self.coded_message):
             raise DecodeError(f"Expected a longer message.")
